@@ -329,9 +329,19 @@ def rule_agreements(model):
     ren = model.func('DT_Var', 'Var.render')
     chains = []
     for f in m.funcs.values():
-        chains += [n for n in own_nodes(f.node) if isinstance(n, ast.If)
-                   and norm(n.test).startswith('hasattr(')
-                   and 'special_formats' in ast.unparse(n)]
+        for n in own_nodes(f.node):
+            if isinstance(n, ast.If) and norm(n.test).startswith('hasattr('):
+                # if/elif chain, or guard clauses followed by the table test
+                src = ast.unparse(n)
+                if 'special_formats' not in src:
+                    blk = n._dt_parent
+                    for fld in ('body', 'orelse'):
+                        lst = getattr(blk, fld, None)
+                        if isinstance(lst, list) and n in lst:
+                            src += ' '.join(ast.unparse(x)
+                                            for x in lst[lst.index(n):])
+                if 'special_formats' in src:
+                    chains.append(n)
     r.instance(ren.where, f'{len(chains)} fmt dispatch block(s)')
     if len(chains) == 2:
         if ast.dump(chains[0]) != ast.dump(chains[1]):
